@@ -143,6 +143,60 @@ theorem delaunay_selection_guarded (order : List (Fin 7)) :
 
 example : selectGuarded [0, 1, 4, 2, 3, 5, 6] = (0, 1, 2) := by decide
 
+/-- With the repaired selection the whole Delaunay reduction returns `det T = +1`, for every sequence of
+loop updates and every ordering of the candidates. -/
+theorem delaunay_guarded_det_one (loop : List (Fin 3 × Fin 4)) (order : List (Fin 7)) :
+    let t := selectGuarded order
+    (fixParity (applyTrace (loop.map (fun p => updMat p.1 p.2) ++ [selMat t.1 t.2.1 t.2.2]))).det = 1 := by
+  intro t
+  apply parity_fix
+  rw [applyTrace_det]
+  apply prod_pm_one
+  intro d hd
+  simp only [List.map_append, List.map_map, List.mem_append, List.mem_map, Function.comp, List.map_cons,
+    List.map_nil, List.mem_singleton] at hd
+  rcases hd with ⟨p, -, rfl⟩ | rfl
+  · exact Or.inr (updMat_det p.1 p.2)
+  · exact delaunay_selection_guarded order
+
+example : (fixParity (applyTrace ([updMat 0 1] ++ [selMat 0 1 2]))).det = 1 := by decide
+
+/-! ### The checked API -/
+
+/-- `Lattice::minkowski_reduce` / `Lattice::niggli_reduce` return `Ok` only after their own a-posteriori
+predicate: whenever the model of the checked API returns `(R, T)`, `R` passes the model of
+`is_minkowski_reduced` / `is_niggli_reduced`, `R = basis·T`, `det T = +1` and `det R = det basis`. -/
+theorem checked_api_sound (B0 : QM3) (exact : Bool) (d : ℚ) (R : QM3) (T : M3) :
+    (minkowskiChecked B0 exact d = some (R, T) →
+      isMinkowskiK R d = some true ∧ R = cur B0 T ∧ T.det = 1 ∧ R.det = B0.det) ∧
+    (niggliChecked B0 exact d = some (R, T) →
+      isNiggliK R d = some true ∧ R = cur B0 T ∧ T.det = 1 ∧ R.det = B0.det) := by
+  constructor
+  · intro h
+    unfold minkowskiChecked at h
+    simp only at h
+    split at h
+    · next hk =>
+      simp only [Option.some.injEq, Prod.mk.injEq] at h
+      obtain ⟨rfl, rfl⟩ := h
+      exact ⟨hk, rfl, minkowski_det_one B0 exact, basis_T_det B0 _ (minkowski_det_one B0 exact)⟩
+    · exact absurd h (by simp)
+  · intro h
+    unfold niggliChecked at h
+    simp only at h
+    split at h
+    · next hk =>
+      simp only [Option.some.injEq, Prod.mk.injEq] at h
+      obtain ⟨rfl, rfl⟩ := h
+      exact ⟨hk, rfl, niggli_det_one B0 exact, basis_T_det B0 _ (niggli_det_one B0 exact)⟩
+    · exact absurd h (by simp)
+
+/-- Non-vacuity: both checked reductions accept a concrete skew integer basis (kernel-evaluated model,
+including the square-root enclosures), with non-trivial `T`. -/
+example : (minkowskiChecked ⟨1, 2, 0, 0, 1, 0, 0, 3, 10⟩ true 0).isSome = true ∧
+    (niggliChecked ⟨1, 2, 0, 0, 1, 0, 0, 3, 10⟩ true 0).isSome = true ∧
+    minkowskiT ⟨1, 2, 0, 0, 1, 0, 0, 3, 10⟩ true = ⟨1, -2, 6, 0, 1, -3, 0, 0, 1⟩ := by decide +kernel
+
 /-! ### Minimality -/
 
 /-- Gauss (2-D), over any linearly ordered field: if `|b1| ≤ |b2|` and `2|b1·b2| ≤ |b1|²` then for all
@@ -206,7 +260,7 @@ theorem minkowski3_minima (B : QM3) (h : MinkowskiReduced0 B) (n : Z3) :
 (several with equality) and is not orthogonal. -/
 example : MinkowskiReduced0 ⟨0, 1, 1, 1, 0, 1, 1, 1, 0⟩ ∧ cdot ⟨0, 1, 1, 1, 0, 1, 1, 1, 0⟩ 0 1 = 1 := by
   refine ⟨⟨?_, ?_, ?_, ?_⟩, ?_⟩ <;>
-    simp [colsq, cdot, comb, QM3.col, QM3.apply, Q3.normSq, Q3.dot] <;> norm_num
+    (simp [colsq, cdot, comb, QM3.col, QM3.apply, Q3.normSq, Q3.dot]; try norm_num)
 
 /-! ### Soundness of the shortest-vector oracle -/
 
@@ -249,5 +303,16 @@ theorem minimum_check_sound (B : QM3) (hB : B.det ≠ 0) (k : ℕ) (τ : ℚ) (h
     sqMinusTol (radiusSq (gram B) k) τ ≤ (comb B n).normSq := by
   rw [← qform_gram]
   exact minimumViolation_none B hB k τ hτ h n hn
+
+/-- The square-root enclosures used for all length comparisons are certified:
+`0 ≤ lo`, `lo² ≤ q < hi²`, `hi - lo ≤ 1e-30`. -/
+theorem sqrt_enclosure_sound (q : ℚ) (hq : 0 < q) :
+    0 ≤ (sqrtLoHi q).1 ∧ (sqrtLoHi q).1 ^ 2 ≤ q ∧ q < (sqrtLoHi q).2 ^ 2 ∧
+    (sqrtLoHi q).2 - (sqrtLoHi q).1 ≤ 1 / 10 ^ 30 :=
+  sqrtLoHi_sound q hq
+
+/-- Non-vacuity: the hypothesis is satisfiable (`q = 2`, an irrational root). -/
+example : (sqrtLoHi 2).1 ^ 2 ≤ 2 ∧ (2 : ℚ) < (sqrtLoHi 2).2 ^ 2 :=
+  ⟨(sqrt_enclosure_sound 2 (by norm_num)).2.1, (sqrt_enclosure_sound 2 (by norm_num)).2.2.1⟩
 
 end Moyo.C14
